@@ -19,7 +19,9 @@ from pyvc.api import *
 
 level("C04", "other",
       "Shape-bounded contracts on abstract commands (every dependency-set assignment for sequences of <= 3 / 4 commands over 3 "
-      "wires): list_to_grid, grid_to_DAG, DAG_to_list, group_operations. Bounded stand-in (not a proof): exhaustive over all command sequences of length <= 3 (quick) / <= 4 (thorough) over "
+      "wires): list_to_grid, grid_to_DAG, DAG_to_list, group_operations. Bounded stand-ins (not proofs): the DAG surgery of the "
+      "gaussian_merge compiler on every command sequence of length <= 4 / 5 over an 8-symbol two-mode alphabet and on generated hybrid "
+      "circuits (opaque gates interpreted as fixed unitaries, exact comparison); exhaustive over all command sequences of length <= 3 (quick) / <= 4 (thorough) over "
       "a 13-symbol alphabet on 3 modes (one- and two-mode gates in both orders, measurements, three feed-forward gates, "
       "a loss channel) plus seeded random longer sequences; for each: get_dependencies, per-wire grid content and order, DAG "
       "node set, acyclicity and a directed PATH between every pair of commands sharing a mode or a measured parameter "
